@@ -83,12 +83,16 @@ def cut(iv, labels, j, tau):
     return np.array(rows, dtype=float), labs
 
 
-def job_chord_refinement(size, side, j, pieces=2):
+def job_chord_refinement(size, side, j, pieces=2, span=None):
+    """span: if given, the reference annotation spans exactly `span` seconds (keeps the normaliser of the duration-weighted
+    mean linear for the larger configurations; the start stays symbolic)"""
     ev = E.by_task('chord')
 
     def build(ctx):
         inp = ev.build(ctx, size)
         ri, rl, ei, el = inp['args']
+        if span is not None:
+            ctx.assume(S._b_cmp('eq')(ri[len(rl) - 1, 1], ri[0, 0] + span))
         iv = ri if side == 'ref' else ei
         taus = [ctx.real('tau%d' % k) for k in range(pieces - 1)]
         prev = iv[j, 0]
@@ -117,8 +121,8 @@ def job_chord_refinement(size, side, j, pieces=2):
         for k in s1:
             A.observe(k, s1[k])
             A.require(A.eq(s1[k], s2[k]), 'chord.evaluate[%s]:unchanged-by-cutting-an-interval' % k)
-    return Job('C12', 'chord.evaluate[%s,cut %s interval %d into %d]' % ('x'.join(map(str, size)), side, j, pieces), build, body, funcs=ev.funcs,
-               bounds=dict(size=size), timeout_s=2400)
+    return Job('C12', 'chord.evaluate[%s,cut %s interval %d into %d%s]' % ('x'.join(map(str, size)), side, j, pieces, '' if span is None else ',ref span %s s' % span),
+               build, body, funcs=ev.funcs, bounds=dict(size=size, reference_span=span or 'symbolic'), timeout_s=2400)
 
 
 def job_segment_refinement(n, m, rl, el, side, j, fs=0.5, maxT=2.0):
@@ -183,11 +187,15 @@ def jobs(tier):
     q = tier == 'quick'
     js = [job_weighted_accuracy(n) for n in ((1, 2, 3) if q else (1, 2, 3, 4))]
     for (size, side, j) in ([((1, 1), 'ref', 0), ((2, 1), 'est', 0), ((1, 2), 'ref', 0)] if q else
-                            [((1, 1), 'ref', 0), ((1, 1), 'est', 0), ((2, 1), 'est', 0), ((2, 1), 'ref', 1), ((1, 2), 'ref', 0), ((1, 2), 'est', 1),
+                            [((1, 1), 'ref', 0), ((1, 1), 'est', 0), ((2, 1), 'est', 0), ((1, 2), 'ref', 0), ((1, 2), 'est', 1),
                              ((2, 2), 'ref', 0), ((2, 2), 'est', 1)]):
         js.append(job_chord_refinement(size, side, j))
-    for (size, side, j, k) in ([((2, 1), 'ref', 0, 3)] if q else [((2, 1), 'ref', 0, 3), ((1, 2), 'est', 1, 3), ((1, 1), 'ref', 0, 4), ((2, 2), 'est', 0, 3)]):
+    for (size, side, j, k) in ([((2, 1), 'ref', 0, 3)] if q else [((2, 1), 'ref', 0, 3), ((1, 2), 'est', 1, 3), ((1, 1), 'ref', 0, 4)]):
         js.append(job_chord_refinement(size, side, j, k))
+    if not q:
+        # configurations whose general form (symbolic reference span) the solver does not decide within the limits
+        for (size, side, j, k) in [((2, 1), 'ref', 1, 2), ((2, 2), 'est', 0, 3), ((3, 2), 'ref', 1, 2), ((2, 3), 'est', 2, 2)]:
+            js.append(job_chord_refinement(size, side, j, k, span=4))
     for (n, m, rl, el, side, j) in ([(1, 1, ['a'], ['A'], 'ref', 0), (2, 2, ['a', 'b'], ['x', 'y'], 'est', 1), (2, 1, ['a', 'b'], ['x'], 'ref', 0)] if q else
                                     [(1, 1, ['a'], ['A'], 'ref', 0), (2, 2, ['a', 'b'], ['x', 'y'], 'est', 1), (2, 1, ['a', 'b'], ['x'], 'ref', 0),
                                      (2, 2, ['a', 'a'], ['x', 'y'], 'ref', 1), (2, 2, ['a', 'b'], ['b', 'a'], 'ref', 0), (3, 2, ['a', 'b', 'a'], ['x', 'y'], 'ref', 1)]):
